@@ -749,7 +749,7 @@ func attributesReadOnlyRule(P *Program, R *Report) {
 				off := len(args) - len(g.Params)
 				for k, a := range args {
 					if k-off >= 0 && k-off < len(g.Params) && isBigIntPtr(a.Type()) && isAttrElem(a) {
-						attrParams[g.Params[k-off]] = true
+						attrParams[paramAt(g, k-off)] = true
 					}
 				}
 			}
